@@ -37,7 +37,16 @@ impl DiagnosticAction {
     }
 
     pub fn is_match(&self, is_disable: bool, range: &TextRange, code: &DiagnosticCode) -> bool {
-        if self.range.intersect(*range).is_none() {
+        // ranges that merely touch do not overlap: a diagnostic starting where the
+        // suppressed scope ends (column 0 of the following line) is outside the scope
+        let overlaps = if range.is_empty() {
+            self.range.contains(range.start())
+        } else {
+            self.range
+                .intersect(*range)
+                .is_some_and(|common| !common.is_empty())
+        };
+        if !overlaps {
             return false;
         }
 
